@@ -44,7 +44,8 @@ Record counters := mkcnt {
 Definition cnt0 : counters := mkcnt 0 0 0 0 0 0.
 
 Inductive op := RouteInfo | ContentType | ResponseFormat (offers : nat) | Authorize | BindAndValidate | ResetAuth
-  | ServeFresh.   (* a fresh copy of the request is served by the whole handler: nothing is threaded back *)
+  | ServeFresh    (* a fresh copy of the request is served by the whole handler: nothing is threaded back *)
+  | Tamper.       (* the caller changes the query string of the request value it holds: cached stage results must not move *)
 
 (* what a call returns: a small code for the value, and whether the returned request value is the one
    passed in (same) or a fresh shallow copy carrying a new cache entry *)
@@ -56,6 +57,7 @@ Inductive res :=
 | RBind (errs : list nat)
 | RReset
 | RServed
+| RTampered
 | RSkipped.                            (* Authorize/BindAndValidate before any route is known: not issued *)
 
 Definition bump_lookup c := mkcnt (S (n_lookup c)) (n_ctparse c) (n_negotiate c) (n_authn c) (n_authz c) (n_bind c).
@@ -170,6 +172,7 @@ Definition step (st : static) (s : state) (o : op) : state * res * bool (* same 
     end
   | ResetAuth => (mkstate (set_auth r false false) c, RReset, false)
   | ServeFresh => (s, RServed, true)
+  | Tamper => (s, RTampered, true)
   end.
 
 Definition step_state st s o := fst (fst (step st s o)).
